@@ -4,6 +4,7 @@ import (
 	"errors"
 	"fmt"
 	"io"
+	"net/http"
 	"strings"
 	"time"
 
@@ -81,6 +82,10 @@ func (cfg *Config) VerifyConfig(schema base.LogSchema) error {
 
 	if len(cfg.Upstream.Address) == 0 {
 		return errors.New("expected a valid datadog api address")
+	}
+
+	if _, err := http.NewRequest(http.MethodPost, cfg.Upstream.Address, nil); err != nil {
+		return fmt.Errorf("expected a valid datadog api address: %w", err)
 	}
 
 	if cfg.Upstream.HTTPTimeout == 0 {
